@@ -175,7 +175,7 @@ func (c *c06Oracle) Check(w *World, o *Obs) []Violation {
 		a := w.acctByPID(lp)
 		row := o.RowsBefore[lp]
 		if p := o.presented("password"); p != nil && a >= 0 && row != nil && c.changed[a] {
-			uid, _ := o.sessPut("uid")
+			uid, _ := w.loginPut(o)
 			tp, _ := o.sessPut("totp_pending")
 			sp, _ := o.sessPut("sms_pending")
 			accepted := uid == lp || tp == lp || sp == lp
